@@ -46,6 +46,7 @@ func runC02(e *env) {
 	// from the property's constructs: wf_registry (the hypothesis of exec_impl_spec) must hold of its tree and the
 	// oracle applies unchanged.
 	c02Mutated(e, 700*e.scale)
+	c02Probes(e)
 	var hs []string
 	for _, k := range hx.SortedKeys(e.res.Histogram) {
 		if strings.HasPrefix(k, "feat:") {
@@ -73,6 +74,25 @@ func runProgCorrespondence(e *env, n int, o progOpts, prop string) {
 
 func c02Bundle(e *env, files []srcFile, entry string, dataSets []data.Map, feats map[string]int, sample bool) {
 	c02BundleOpt(e, files, entry, dataSets, feats, sample, false)
+}
+
+// c02Probes: sources whose PARSE tree is not of the shape exec_impl_spec assumes (a {let} directly inside {msg} or
+// a plural case becomes a placeholder holding a let: wf_registry = false).  The compiler's data-reference check rejects
+// them (the let can never be used inside its placeholder); if one ever compiles, c02BundleOpt reports the shape.
+func c02Probes(e *env) {
+	for _, body := range []string{
+		`{msg desc="d"}a{let $x: 1 /}{$x}b{/msg}`,
+		`{msg desc="d"}{let $x}a{/let}{$x}{/msg}`,
+		`{msg desc="d"}{plural $a}{case 1}{let $x: 1 /}{$x}{default}b{/plural}{/msg}`,
+		`{msg desc="d"}x{let $a: 9 /}y{/msg}[{$a}]`,
+	} {
+		files := []srcFile{{Name: "probe.soy", Text: "{namespace ns}\n\n/** @param a */\n{template .t}\n" + body + "\n{/template}\n"}}
+		if c02BundleOpt(e, files, "ns.t", []data.Map{{"a": data.Int(1)}}, map[string]int{"probe": 1}, false, true) {
+			e.res.Histogram["probe:let-in-msg-compiles"]++
+		} else {
+			e.res.Histogram["probe:let-in-msg-rejected"]++
+		}
+	}
 }
 
 var c02TagRe = regexp.MustCompile(`\{[^{}]*\}`)
